@@ -208,6 +208,30 @@ def dask_level(chk, r, tmp):
         if observe(packed) != ("geo", "pt"):
             chk.violation("active/lost-after-pack_partitions-compute", dict(rep, got=observe(packed)))
         chk.count("dask-level", 3)
+        # history: a frame whose partitions are held objects (persist / from_delayed), a derived frame with another active
+        # column is computed, then the original is used again
+        for how in ("persist", "from_delayed", "same-compute"):
+            if how == "from_delayed":
+                held = [p for p in dask.compute(*dd.from_pandas(df, npartitions=3).set_geometry("pt").to_delayed(), scheduler="synchronous")]
+                base = dd.from_delayed([dask.delayed(p) for p in held], meta=held[0].iloc[:0])
+            else:
+                base = dd.from_pandas(df, npartitions=3).set_geometry("pt")
+                if how == "persist":
+                    base = base.persist()
+            derived = base.set_geometry("pg")
+            if how == "same-compute":
+                b_c, d_c = dask.compute(base, derived, scheduler="synchronous")
+                if observe(b_c) != ("geo", "pt") or observe(d_c) != ("geo", "pg"):
+                    chk.violation("active/derived-frame-changes-original/" + how, dict(rep, original=observe(b_c), derived=observe(d_c)))
+                continue
+            d_c = derived.compute()
+            per = list(base.map_partitions(lambda d: pd.Series([getattr(d, "_geometry", None)]), meta=pd.Series([], dtype=object)).compute())
+            box = (0, 0, 6, 6)
+            got = sorted(base.cx[box[0]:box[2], box[1]:box[3]].compute().index)
+            want = sorted(df.index[df["pt"].array.intersects_bounds(box)])
+            if any(p != "pt" for p in per) or got != want or observe(d_c) != ("geo", "pg"):
+                chk.violation("active/derived-frame-changes-original/" + how, dict(rep, partitions=per, cx=got, expected=want))
+            chk.count("dask-history:" + how)
     except Exception as e:  # noqa: BLE001
         chk.violation(f"active/dask-op-raises-{common.err_kind(e)}", dict(rep, error=repr(e)[:300]))
 
